@@ -244,6 +244,7 @@ def run_life(case):
     # The link going down (error report or close_link from another thread) while the dispatcher thread is in the middle of
     # dispatching a packet is a listed known finding: the late dispatch pollutes the state of the attempt and of later
     # attempts in many ways. Everything observed in such a case is folded into one signature per mechanism.
+    preempted = s.preemptions
     if out.violations and (race['error'] or race['close']):
         tag = 'error-reported-while-dispatching' if race['error'] else 'closed-while-dispatching'
         msgs = '; '.join('%s: %s' % (sig, msg[:300]) for sig, msg in out.violations[:3])
@@ -251,6 +252,9 @@ def run_life(case):
     if race['error'] or race['close']:
         out.feat('race-link-down-while-dispatching')
     out.nontrivial = inside or after_connected
+    if case.get('forced_preemption'):
+        out.nontrivial = preempted > 0
+        out.feat('forced-preemption-taken' if preempted else 'forced-preemption-beyond-session')
     if case.get('dup') is not None:
         hit = dcount['n'] > case['dup']['k']
         out.nontrivial = hit
@@ -301,9 +305,20 @@ def dup_sweep_cases(tier):
                        'attempts': [], 'dup': {'k': k, 'extra': extra}, 'schedule': {'prefix': [], 'seed': k, 'rate': 0.0}}
 
 
+def single_preemption_cases(tier):
+    """healthy connections with replies without latency; the k-th scheduling decision of the session goes to another thread"""
+    for (nlog, nparam, mems, version) in ((2, 3, [1], 10), (1, 1, [], 3)):
+        for k in range(0, 120 if tier == 'quick' else 400):
+            for other in (1, 2):
+                yield {'nlog': nlog, 'nparam': nparam, 'mems': mems, 'version': version, 'needs_resending': False, 'delays': [0.0],
+                       'attempts': [{'fault': None, 'close_at': 0.5, 'sync': k % 2 == 1}], 'schedule': {'prefix': [0] * k + [other], 'seed': 0, 'rate': 0.0},
+                       'forced_preemption': True}
+
+
 def subchecks(tier):
     return [
         Sub('histories', run_life, strategy=life_case(), examples={'quick': 160, 'thorough': 8000}),
         Sub('fault-sweep', run_life, cases=sweep_cases, distinct_by_construction=True),
         Sub('duplicate-sweep', run_life, cases=dup_sweep_cases, distinct_by_construction=True),
+        Sub('single-preemptions', run_life, cases=single_preemption_cases, distinct_by_construction=True),
     ]
